@@ -1,21 +1,23 @@
 #!/bin/bash
-# usage: tools/dev_mutant.sh <patch.diff> <PROP> [shards] — try a seeded change against the private dev worktree
-# (/tmp/devrepo, see DESIGN 9.5) without touching /repo: apply, build the dev binary, run a few shards, undo.
+# usage: tools/dev_mutant.sh <patch.diff> <PROP> [shards] — try a seeded change against a private dev worktree
+# (DEVREPO, default /tmp/devrepo; see DESIGN 9.5) without touching /repo: apply, build the dev binary
+# (DEVTARGET, default /verif/target/dev; harness sources HARNESS_DIR), run a few shards, undo.
 set -u
 patch=$1; prop=$2; n=${3:-6}
-git -C /tmp/devrepo diff --quiet || { echo "/tmp/devrepo dirty"; exit 2; }
-git -C /tmp/devrepo apply "$patch" || exit 2
-( cd ${HARNESS_DIR:-/verif/harness} && CARGO_TARGET_DIR=/verif/target/dev cargo build --release --offline --config 'paths=["/tmp/devrepo"]' 2>&1 | grep -E "^error" -A8 | head -20 )
-rm -f /tmp/devm*.json
-for sh in $(seq 0 $((n-1))); do /verif/target/dev/release/dv5mon $prop --tier quick --seed ${VERIF_SEED:-1} --shard $sh --nshards 16 --out /tmp/devm$sh.json & done; wait
-git -C /tmp/devrepo checkout -- .
-python3 - $n <<'PY'
+R=${DEVREPO:-/tmp/devrepo}; T=${DEVTARGET:-/verif/target/dev}; H=${HARNESS_DIR:-/verif/harness}; O=${DEVOUT:-/tmp/devm}
+git -C $R diff --quiet || { echo "$R dirty"; exit 2; }
+git -C $R apply "$patch" || exit 2
+( cd $H && CARGO_TARGET_DIR=$T cargo build --release --offline --config "paths=[\"$R\"]" 2>&1 | grep -E "^error" -A8 | head -20 )
+rm -f $O*.json
+for sh in $(seq 0 $((n-1))); do $T/release/dv5mon $prop --tier quick --seed ${VERIF_SEED:-1} --shard $sh --nshards 16 --out $O$sh.json & done; wait
+git -C $R checkout -- .
+python3 - $n $O <<'PY'
 import json,sys
 tot={}
 for sh in range(int(sys.argv[1])):
-    try: r=json.load(open(f'/tmp/devm{sh}.json'))
+    try: r=json.load(open(f'{sys.argv[2]}{sh}.json'))
     except Exception as e: print('shard',sh,'no report',e); continue
     for k,v in r['violation_counts'].items(): tot[k]=tot.get(k,0)+v
 print('violations:',tot)
 PY
-( cd ${HARNESS_DIR:-/verif/harness} && CARGO_TARGET_DIR=/verif/target/dev cargo build --release --offline --config 'paths=["/tmp/devrepo"]' 2>&1 | grep -E "^error" | head -3 )
+( cd $H && CARGO_TARGET_DIR=$T cargo build --release --offline --config "paths=[\"$R\"]" 2>&1 | grep -E "^error" | head -3 )
